@@ -242,14 +242,13 @@ def container_xml(case: Dict[str, Any], cname: str, prefix: str) -> str:
     that is cached across cases: most layers of neighbouring cases are identical up to the batch prefix."""
     from odxmodel import emit
     keys = [k for k, _ in _layer_specs_keys_only(case)]
-    missing = [k for k in keys if k not in _LAYER_CACHE]
-    if missing:
+    if len(_LAYER_CACHE) > 4000:
+        _LAYER_CACHE.clear()
+    if any(k not in _LAYER_CACHE for k in keys):
         specs = _layer_specs(case, TOKEN)
         layer_types = {l["name"]: l["type"] for _, l in specs}
         for k, l in specs:
             if k not in _LAYER_CACHE:
-                if len(_LAYER_CACHE) > 4000:
-                    _LAYER_CACHE.clear()
                 _LAYER_CACHE[k] = (l["type"], _strip_prefixed_short_names(emit.layer(l, layer_types)))
     groups: Dict[str, List[str]] = {}
     for k in keys:
